@@ -61,7 +61,8 @@ def mask_defect_class(m):
 
 
 def glmi_defect_class(case):
-    """F-C01-2: empty global layer mask info that the reader's 17-byte probe (into the rest of the FILE) cannot see"""
+    """(legacy) F-C01-2: empty global layer mask info that the 17-byte probe of the reader before f3a2729 could not see;
+    now only used to count how many generated documents exercise the repaired branch"""
     kind, a, d = case
     if kind == "psd":
         l, v, restlen = d[3], d[0][1], 2 + len(d[4][1])
@@ -86,7 +87,7 @@ def _cls(fl, pred):
     return in_scope(case) and pred(case)
 
 
-core.KNOWN_CLASSIFIERS["F-C01-2"] = lambda fl: _cls(fl, lambda c: glmi_defect_class(c) and not F.wf_case(c, mg=False, gg=True))
+# F-C01-2 is fixed in /repo (f3a2729): no classifier any more; a document of that class failing again is a VIOLATION
 core.KNOWN_CLASSIFIERS["F-C01-3"] = lambda fl: _cls(fl, lambda c: any(mask_defect_class(m) for m in masks_of(c)) and
                                                     not F.wf_case(c, mg=True, gg=False))
 
@@ -115,7 +116,7 @@ def _w_c01_3():
         return True
 
 
-core.KNOWN_WITNESS["F-C01-2"] = _w_c01_2
+core.KNOWN_WITNESS["F-C01-2"] = _w_c01_2      # (only consulted for open findings; F-C01-2 is fixed)
 core.KNOWN_WITNESS["F-C01-3"] = _w_c01_3
 
 
@@ -237,6 +238,8 @@ def oracle_element(ck, case, r, tag):
         ck.fail("written-count-" + kind, jcase(case), r["written"], len(b), case=jcase(case))
     scope = in_scope(case)
     ck.count("scope:%s" % ("in" if scope else "out"))
+    if scope and glmi_defect_class(case):
+        ck.count("repaired-class:F-C01-2")
     if not scope:
         return
     ok = r["stage"] is None and r["eq"]
@@ -703,6 +706,48 @@ def run():
     for i in bad[:5]:
         ck.notes.append("patterns model/implementation differ: impl %r" % (pcases[i][1],))
 
+    # ---- (a6) every registered payload class inside its container (key dispatch of ImageResource / TaggedBlock),
+    #      and documents whose layers live in a Lr16 / Lr32 block
+    ntc = 0
+    for what, cont, wa, ra, payload in F.typed_container_cases():
+        # only payloads that round-trip on their own (placeholders that do not are listed in CONSTRUCTED_SKIP)
+        pname = type(payload).__module__.split(".")[-1] + "." + type(payload).__name__
+        if pname in CONSTRUCTED_SKIP:
+            continue
+        try:
+            f = io.BytesIO()
+            n = cont.write(f, *wa)
+        except Exception:
+            ck.count("typed-container:write-raises")
+            continue
+        b = f.getvalue()
+        ntc += 1
+        if n != len(b):
+            ck.fail("written-count-typed-container", {"what": what}, n, len(b))
+        try:
+            y = type(cont).frombytes(b, *ra)
+            ok = (y == cont) and type(y.data) is type(cont.data)
+            same = ok and y.tobytes(*wa) == b
+        except Exception as e:
+            ok, same = False, False
+        if not ok:
+            ck.fail("typed-container-roundtrip", {"what": what, "bytes": list(b[:200])},
+                    "re-read != original (payload came back as %s)" % (type(getattr(y, "data", None)).__name__ if "y" in dir() else "?"),
+                    "X.frombytes(x.tobytes()) == x with the payload decoded to its registered class")
+        elif not same:
+            ck.fail("typed-container-rewrite", {"what": what, "bytes": list(b[:200])}, "re-written bytes differ", "identical bytes")
+    ck.count("typed-container-cases", ntc)
+    for i in range(600 if thorough else 60):
+        case = F.g_lr_case(rng, [1, 2][i % 2], [1, 2, 4][i % 3])
+        r = F.run_lr_case(case, exc_code)
+        if r["bytes"] is None:
+            ck.count("lr-doc:not-written")
+            continue
+        ck.count("lr-doc")
+        if not (r["eq"] and r["rewrite_same"]):
+            ck.fail("roundtrip-psd-lr16", jcase(case), "raised %r" % r["err"] if r["stage"] else "re-read != original or re-write differs",
+                    "X.frombytes(x.tobytes()) == x", lr=True)
+
     # ---- (b) fixtures: implementation reads and re-writes; the model reads the same bytes
     from psd_tools.psd import PSD
 
@@ -874,6 +919,19 @@ def replay(path):
     F.quiet()
     fl = json.load(open(path))
     print("kind:", fl["kind"], "| expected:", fl["expected"], "| observed:", fl["observed"])
+    if fl.get("lr") or (isinstance(fl.get("input"), dict) and fl["input"].get("kind") == "psdlr"):
+        case = unjcase(fl["input"])
+        r = F.run_lr_case(case, exc_code)
+        print("document with a Lr16/Lr32 block:", case[1])
+        print("write:", "raised %r" % r["err"] if r["stage"] == "write" else "%d bytes" % len(r["bytes"]))
+        print("re-read:", "raised %r" % r["err"] if r["stage"] == "read" else ("equal" if r["eq"] else "DIFFERENT"), "| re-write same:", r.get("rewrite_same"))
+        if r["bytes"] is not None:
+            print("stale channel lengths in the block after write:", F.stale_channel_lengths(r["block"].data)[:10])
+            try:
+                print("independent walker (descending into the block):", len(F.walk(r["bytes"], descend=True)), "blocks")
+            except F.WalkError as e:
+                print("independent walker: FAILS:", e)
+        return 1
     if "case" in fl:
         case = unjcase(fl["case"])
         r = F.run_impl(case, exc_code)
